@@ -19,7 +19,7 @@ def run(repo, tier) -> Result:
     )
     res.assumptions = ["timestamps sorted (collapse output strictly increasing, base stream non-decreasing)"]
     check_trim("C15", res, repo)
-    check_tasks_order("C15", res, repo)
+    check_tasks_order("C15", res, repo, need=(("collapse", "trim"),))
     cas = shipped_analyses(repo, res)
     check_taint("C15", res, repo, cas, branches_too=False)
     res.rule("R-TRIM", floor=3)
